@@ -32,7 +32,7 @@ import Mathlib.Tactic.NormNum
   | `::make_scaling` (49-79)                           | modelled + translated | `makeScaling` = `Gen.makeScaling`; the `m_min.size() > 0` guard: see `upscaleAffine` (sizes must match, else `none`) |
   | `::update(scalar_stats_t&, values)` (81-100)       | modelled + translated | `Acc.push`, `accumulate` = fold of `Gen.updateColumn` (`model_push_is_generated`) |
   | `::done(scalar_stats_t&, enable_scaling)` (102-146)| modelled + translated | `finalize` = `Gen.doneColumn` (`model_finalize_is_generated`); ε = `Gen.epsilon2` (from numeric.h: `epsilon2`, `roundpow10`, `epsilon`), `epsilon2_pos` |
-  | `::alloc_xclass_stats`, `::update(xclass_stats_t&)`, `::done(xclass_stats_t&)`, `::make_xclass_stats` ×2 (148-208), `xclass_stats_t::make_targets_stats / make_feature_stats` (452-491) | modelled | `Model/ScalingClass.lean`: `classCounts` / `incAt`, `sampleClasses`, `classWeights`, `xclassStats`, `xclassFor` (`none` = `critical0`); with `nano::make_hashes` (src/dataset/hash.cpp) = `setInsert` / `makeHashes` and `nano::find` (include/nano/dataset/hash.h) = `lowerBound` / `find`; `nano::hash` of an indicator row is an oracle (reported per sample by the harness; sclass: the label). Theorems: `makeHashes_sorted`, `mem_makeHashes`, `find_spec`, `sample_classified`, `class_weights_pos`. (No caller in the library besides test_dataset_stats.cpp; the property statement does not mention class weights.) NOT proved: counts = number of samples per class as a closed formula, total weight per class = norm (checked by the python oracle on every case: keys xclass-counts / xclass-balance) |
+  | `::alloc_xclass_stats`, `::update(xclass_stats_t&)`, `::done(xclass_stats_t&)`, `::make_xclass_stats` ×2 (148-208), `xclass_stats_t::make_targets_stats / make_feature_stats` (452-491) | modelled | `Model/ScalingClass.lean`: `classCounts` / `incAt`, `sampleClasses`, `classWeights`, `xclassStats`, `xclassFor` (`none` = `critical0`); with `nano::make_hashes` (src/dataset/hash.cpp) = `setInsert` / `makeHashes` and `nano::find` (include/nano/dataset/hash.h) = `lowerBound` / `find`; `nano::hash` of an indicator row is an oracle (reported per sample by the harness; sclass: the label). Theorems: `makeHashes_sorted`, `mem_makeHashes`, `find_spec`, `sample_classified`, `class_weights_pos`, `class_counts_closed_form`, `xclass_counts_pos`, `xclass_weights_pos`. (No caller in the library besides test_dataset_stats.cpp; the property statement does not mention class weights.) Proved since round 5: counts = number of samples per class (`class_counts_closed_form`), every class non-empty (`xclass_counts_pos`: the hypothesis of `class_weights_pos` holds for what `make_xclass_stats` computes, `xclass_weights_pos`). NOT proved: total weight per class = norm (checked by the python oracle on every case: key xclass-balance) |
   | `nano::upscale(flatten_stats, …, weights, bias)` (211-231) | modelled      | `upscaleAffine` / `upscaleAffineRow` (the two matrix statements are Eigen expressions: compared with 1e-12·Σ|terms|) |
   | `scalar_stats_t::scalar_stats_t(dims)` (253-264)   | modelled + translated | `Acc.init` = `Gen.initColumn` (`model_init_is_generated`)     |
   | `scalar_stats_t::make_flatten_stats` (266-290)     | modelled              | `flattenStats`, `enableMask` (`enableMask_spec` against `column2feature`); batching loop: C09 `Iterator.makeStats` (`stats_batch_independent`); `dataset.flatten`: C08 |
@@ -757,5 +757,30 @@ example : upscaleAffine Mode.mean ([] : List (Stats ℚ)) Mode.mean [] [[1]] [] 
   simp [upscaleAffine]
 
 end examples
+
+/-- `m_class_samples` has one entry per class, and entry `k` is exactly the number of samples whose class index is `k`
+    (closed form of the `::update(xclass_stats_t&)` loop, any sample list, any number of classes; indices outside `[0, n)`
+    — in particular −1 — are counted nowhere). -/
+theorem class_counts_closed_form (n : Nat) (classes : List Int) :
+    (classCounts n classes).length = n ∧
+    ∀ k, k < n → (classCounts n classes).getD k 0 = classes.countP (fun c => c = (k : Int)) :=
+  classCounts_spec n classes
+
+/-- what `make_xclass_stats` computes meets the hypotheses of `class_weights_pos`: every class has at least one sample, so
+    every classified sample of every data set gets a strictly positive weight and every other sample exactly 0. -/
+theorem xclass_weights_pos (ss : List (Bool × Nat)) (hne : makeHashes ss ≠ []) :
+    ∀ p ∈ List.zip (xclassStats (α := α) ss).sampleClasses (xclassStats (α := α) ss).sampleWeights,
+      (p.1 < 0 → p.2 = 0) ∧ (0 ≤ p.1 → p.1.toNat < (xclassStats (α := α) ss).classSamples.length → 0 < p.2) := by
+  have hlen := (classCounts_spec (makeHashes ss).length (sampleClasses (makeHashes ss) ss)).1
+  refine class_weights_pos _ ?_ ?_ _
+  · intro n hn
+    obtain ⟨k, hk, rfl⟩ := List.mem_iff_getElem.mp hn
+    have := xclass_counts_pos ss k (hlen ▸ hk)
+    simpa [List.getD_eq_getElem?_getD, List.getElem?_eq_getElem hk] using this
+  · intro h
+    have : (makeHashes ss).length = 0 := by rw [← hlen, h]; rfl
+    exact hne (List.length_eq_zero_iff.mp this)
+
+example : classCounts 3 [0, 2, -1, 2, 5] = [1, 0, 2] := by decide
 
 end NanoVerif.Scaling
